@@ -716,3 +716,193 @@ func (c *Ctx) withHelperDecls(rel, recv, name string) map[string]bool {
 	})
 	return out
 }
+
+// helperDeclsOf: union of withHelperDecls over several (receiver, name) pairs of one package.
+func (c *Ctx) helperDeclsOf(rel string, pairs ...[2]string) map[string]bool {
+	out := map[string]bool{}
+	for _, p := range pairs {
+		for k := range c.withHelperDecls(rel, p[0], p[1]) {
+			out[k] = true
+		}
+	}
+	return out
+}
+
+// srcFuncs: the source functions of the given packages; in view mode each is replaced by its
+// inlined view (closures through the view of their enclosing function).
+func (c *Ctx) srcFuncs(rels ...string) []*ssa.Function {
+	fns := c.P.SrcFuncs(rels...)
+	if !c.ViewMode {
+		return fns
+	}
+	out := make([]*ssa.Function, 0, len(fns))
+	for _, f := range fns {
+		out = append(out, c.viewOf(f))
+	}
+	return out
+}
+
+// privateHelperOf: fn is an unexported function of the module that is never used as a value and
+// whose static callers all satisfy ok (directly, or by being such helpers themselves). This is the
+// shape extract-function produces; a who-may-write table accepts such a helper on behalf of its
+// callers instead of freezing the set of function names.
+func (c *Ctx) privateHelperOf(fn *ssa.Function, ok func(caller string) bool) (bool, []string) {
+	if c.callersIdx == nil {
+		c.callersIdx = map[*ssa.Function][]*ssa.Function{}
+		c.valueUse = map[*ssa.Function]bool{}
+		for _, g := range c.P.SrcFuncs() {
+			allInstrs(g, func(in ssa.Instruction) {
+				var rands []*ssa.Value
+				cc := callOf(in)
+				for _, p := range in.Operands(rands) {
+					f, isF := (*p).(*ssa.Function)
+					if !isF {
+						continue
+					}
+					if cc != nil && cc.StaticCallee() == f && cc.Value == ssa.Value(f) {
+						c.callersIdx[f] = append(c.callersIdx[f], g)
+					} else {
+						c.valueUse[f] = true
+					}
+				}
+			})
+		}
+	}
+	seen := map[*ssa.Function]bool{}
+	var names []string
+	var rec func(f *ssa.Function, depth int) bool
+	rec = func(f *ssa.Function, depth int) bool {
+		if depth > 3 || seen[f] {
+			return false
+		}
+		seen[f] = true
+		if f.Parent() != nil || token.IsExported(f.Name()) || c.valueUse[f] || len(c.callersIdx[f]) == 0 {
+			return false
+		}
+		for _, g := range c.callersIdx[f] {
+			root := g
+			for root.Parent() != nil {
+				root = root.Parent()
+			}
+			n := c.P.FuncName(g)
+			if ok(n) || ok(c.P.FuncName(root)) {
+				names = append(names, n)
+				continue
+			}
+			if !rec(root, depth+1) {
+				return false
+			}
+		}
+		return true
+	}
+	res := rec(fn, 0)
+	return res, dedupe(names)
+}
+
+// knownOnEdge: is v known to have the given truth value whenever the edge p→b is taken?
+func (bf *branchFacts) knownOnEdge(p, b *ssa.BasicBlock, v ssa.Value, truth bool) bool {
+	k := factKey(v, truth)
+	if bf.out[p][k] {
+		return true
+	}
+	return edgeFactsOf(p, b, bf.valueFacts, 0)[k]
+}
+
+// ---------------------------------------------------------------------------
+// path classes over chosen atoms
+
+// atomPaths enumerates, for a block, the classes of acyclic paths from the entry (or from a given
+// start block) to it, each class being the set of outcomes of the chosen atomic conditions met on
+// the way ("t3=T;t7=F"). Classes with the same outcome set are merged, so branches on other
+// conditions do not multiply them. Back edges are not followed.
+type atomPaths struct {
+	isAtom func(ssa.Value) bool
+	start  *ssa.BasicBlock // nil: function entry
+	memo   map[*ssa.BasicBlock]map[string]bool
+	stack  map[*ssa.BasicBlock]bool
+}
+
+func newAtomPaths(isAtom func(ssa.Value) bool, start *ssa.BasicBlock) *atomPaths {
+	return &atomPaths{isAtom: isAtom, start: start, memo: map[*ssa.BasicBlock]map[string]bool{}, stack: map[*ssa.BasicBlock]bool{}}
+}
+
+func joinAlt(a, k string) string {
+	if a == "" {
+		return k
+	}
+	parts := strings.Split(a, ";")
+	for _, p := range parts {
+		if p == k {
+			return a
+		}
+	}
+	parts = append(parts, k)
+	sort.Strings(parts)
+	return strings.Join(parts, ";")
+}
+
+func (ap *atomPaths) edgeAtom(p, b *ssa.BasicBlock) string {
+	if len(p.Instrs) == 0 {
+		return ""
+	}
+	ifi, ok := p.Instrs[len(p.Instrs)-1].(*ssa.If)
+	if !ok || p.Succs[0] == p.Succs[1] {
+		return ""
+	}
+	cond, truth := ifi.Cond, p.Succs[0] == b
+	for {
+		u, ok := cond.(*ssa.UnOp)
+		if !ok || u.Op != token.NOT {
+			break
+		}
+		cond, truth = u.X, !truth
+	}
+	if !ap.isAtom(cond) {
+		return ""
+	}
+	if truth {
+		return cond.Name() + "=T"
+	}
+	return cond.Name() + "=F"
+}
+
+func (ap *atomPaths) at(b *ssa.BasicBlock) map[string]bool {
+	if m, ok := ap.memo[b]; ok {
+		return m
+	}
+	if ap.stack[b] {
+		return map[string]bool{}
+	}
+	ap.stack[b] = true
+	out := map[string]bool{}
+	if len(b.Preds) == 0 || b == ap.start {
+		out[""] = true
+	}
+	if b != ap.start {
+		for _, p := range b.Preds {
+			if b.Dominates(p) {
+				continue // back edge
+			}
+			k := ap.edgeAtom(p, b)
+			for a := range ap.at(p) {
+				if k == "" {
+					out[a] = true
+				} else {
+					out[joinAlt(a, k)] = true
+				}
+			}
+		}
+	}
+	ap.stack[b] = false
+	ap.memo[b] = out
+	return out
+}
+
+func altHas(a, k string) bool {
+	for _, p := range strings.Split(a, ";") {
+		if p == k {
+			return true
+		}
+	}
+	return false
+}
